@@ -169,7 +169,66 @@ def _acquire(ctx: Ctx, m: pf.Module, cls: ast.ClassDef, guards: List[af.Guarded]
     return layout
 
 
+def _manager_generator(ctx: Ctx, m: pf.Module, am: pf.FuncDef) -> None:
+    """acquire_manager written as an @asynccontextmanager generator: same obligations as the class form, on the generator's CFG (exception
+    edges included): the release is reached only after the acquire COMPLETED (an acquire inside the `try` whose `finally` releases gives the
+    weight back although it was never granted -- cancellation while queued, or acquire's own hand-back), every exit after the acquire releases
+    exactly once, with the weight that was acquired, and nothing suspends between the grant and the protected region."""
+    cons = f'{F}::{CLS}.acquire_manager'
+    ctx.need(isinstance(am, ast.AsyncFunctionDef), f'{cons}: generator form is not `async def`')
+    params = [a.arg for a in am.args.args]
+    ctx.need(len(params) == 2, f'{cons}: parameters changed: {params}')
+    recv, w = params
+    cfg = pf.cfg(am)
+    ys = [n for n in cfg.nodes if n.ast is not None and n.kind in ('stmt', 'return') and any(isinstance(x, (ast.Yield, ast.YieldFrom)) for x in pf.walk_shallow(n.ast))]
+    ctx.need(len(ys) == 1, f'{cons}: expected exactly one yield in the context manager, found {len(ys)}')
+    Y = ys[0]
+    acq = af.stmt_nodes(cfg, lambda n: any(isinstance(x, ast.Await) and pf.call_name(x) == f'{recv}.acquire' for x in ast.walk(n.ast)))
+    rel = af.stmt_nodes(cfg, lambda n: af.node_is_call(n, f'{recv}.release') is not None)
+    ok = len(acq) == 1 and cfg.dominated_by(Y, lambda n: n is acq[0]) and not af.direct(cfg, acq[0], acq[0])
+    if ok:
+        c = af.node_is_call(acq[0], f'{recv}.acquire')
+        ok = c is not None and [pf.nsrc(a) for a in c.args] == [w] and not c.keywords
+        later = [n for n in af.stmt_nodes(cfg, pf.node_has_await) if n is not acq[0] and n is not Y and af.direct(cfg, acq[0], n)]
+        ok = ok and not later
+    ctx.check(ok, 'R2', f'{F}::{CM}.__aenter__', f'acquire_manager does not `await {recv}.acquire({w})` exactly once before its yield as its only suspension point', m.path, am.lineno)
+    if not (len(acq) == 1 and rel):
+        ctx.check(bool(rel), 'R2', f'{F}::{CM}.__aexit__', 'acquire_manager never releases the acquired weight', m.path, am.lineno)
+        return
+    A = acq[0]
+    # (a) release only after a completed acquire: no path to a release that skips the acquire or leaves it through its exception edge
+    skip = cfg.path_avoiding(cfg.entry, lambda n: any(n is r for r in rel), lambda n: n is A)
+    viaexc = cfg.path_avoiding(A, lambda n: any(n is r for r in rel), lambda n: n is A, edge_ok=lambda a, b, lab: not (a is A) or lab == 'exc')
+    # (b) after the acquire completed every exit passes exactly one release of the same weight
+    leak = af.must_pass(cfg, A, lambda n: n is cfg.exit or n is cfg.raise_exit, lambda n: any(n is r for r in rel), edge_ok=lambda a, b, lab: not (a is A and lab == 'exc'))
+    twice = any(af.direct(cfg, r1, r2) for r1 in rel for r2 in rel)
+    args_ok = all((c := af.node_is_call(r, f'{recv}.release')) is not None and [pf.nsrc(a) for a in c.args] == [w] and not c.keywords for r in rel)
+    pre = [n for n in cfg.nodes if n.ast is not None and pf.node_has_await(n) and n is not A and n is not Y and any(af.direct(cfg, n, r) for r in rel)]
+    msg = None
+    if skip is not None or viaexc is not None:
+        msg = (f'`{rel[0].text()}` is reached when `await {recv}.acquire({w})` did NOT complete (the acquire sits inside the try whose finally releases): a waiter cancelled while queued, or '
+               f'one that acquire already handed back, releases {w} it never held -- value exceeds max and later acquirers are admitted beyond capacity')
+    elif not any(lab == 'exc' for _, lab in Y.succ):
+        msg = ('the `yield` is not protected by try/finally: when the body of `async with` raises or is cancelled the exception is thrown into the generator at the yield and the '
+               'release is skipped -- capacity is lost for good')
+    elif leak is not None:
+        msg = f'after the acquire completed the exit via `{leak[-2].text() if len(leak) > 1 else "?"}` does not release the weight: capacity is lost for good'
+    elif twice:
+        msg = 'one exit releases the weight twice'
+    elif not args_ok:
+        msg = f'the released weight is not the acquired `{w}`'
+    elif pre:
+        msg = f'`{pre[0].text()}` suspends before the release: a cancellation there skips it'
+    ctx.check(msg is None, 'R2', f'{F}::{CM}.__aexit__', msg or '', m.path, rel[0].lineno)
+    ctx.ok('R2', f'{F}::{CLS}.acquire_manager', '@asynccontextmanager generator form')
+
+
 def _manager(ctx: Ctx, m: pf.Module) -> None:
+    cls0 = m.cls(CLS)
+    am0 = af.method(m, cls0, 'acquire_manager')
+    if any(d.split('.')[-1] == 'asynccontextmanager' for d in pf.decorator_names(am0)):
+        _manager_generator(ctx, m, am0)
+        return
     cm = m.cls(CM)
     init = af.method(m, cm, '__init__')
     params = [a.arg for a in init.args.args]
